@@ -410,6 +410,8 @@ generic(
         dict(scope="cmds", mode="simulate", num=60, depth=10, limit=600, mc_maxgens=1, invariants=INV_C14, variants=[{"names": "plain"}, {"names": "mixed", "flatrel": True}, {"names": "xml", "spelling": "rel"}]),
         dict(scope="nest", mode="simulate", num=60, depth=8, limit=600, mc=False,
              variants=[{"names": "prefix"}, {"names": "plain", "sfspell": "dotseg"}, {"names": "mixed", "spelling": "slash", "sfspell": "rel"}]),
+        # failing runs: a comment XML cannot represent
+        dict(scope="nest", mode="simulate", num=40, depth=8, limit=300, mc=False, seed_offset=5, tag="x", variants=[{"names": "plain", "ctrl": True}, {"names": "unicode", "ctrl": True}]),
     ],
     thorough=[dict(scope="all", mode="simulate", num=20, depth=12, maxops=14, maxgens=60, limit=2500, mc=True, mc_simulate=100000, mc_timeout=300, mc_depth=16, mc_maxgens=60, invariants=INV_C14),
              
